@@ -35,6 +35,10 @@ func (b *bootOnly) OnBoot(e gnet.Engine) gnet.Action {
 }
 
 func runStartFault(w *tr.Writer, seed uint64, idx int) {
+	if idx%8 == 7 {
+		runDialFail(w, seed, idx)
+		return
+	}
 	if idx%4 == 3 {
 		runStopRace(w, seed, idx)
 		return
